@@ -9,11 +9,11 @@ PROPS = {
             'assumptions': ['fewer than 2^32 labels per program (precondition of analyze)',
                             'that a Poison::Error(UndefinedLabel/DuplicateDeclarationLabel) surfaces as rejection with E400/E420 is the resolver\'s error collection, not under contract (code numbers: C13 unit)'],
             'trusted': []},
-    'C06': {'units': ['U-SYN'],
-            'assumptions': ['L1800 lint half of the property: linter.rs not yet under contract',
+    'C06': {'units': ['U-SYN', 'U-LINT'],
+            'assumptions': ['the Linter is idle (both flags off) between lint() calls: holds as Linter has private fields and is built by Default',
                             'that Poison::Error(MissingBraces/NonFinalLoopStatement/MisplacedLoopStatement) surfaces as E840/E800/E801 is the resolver\'s error collection'],
             'trusted': []},
-    'C09': {'units': ['U-VT', 'U-LEXD'], 'assumptions': ['alpha lexer/parser literal handling and generator constant materialisation are not under contract'], 'trusted': []},
+    'C09': {'units': ['U-VT', 'U-LEXD', 'U-LINT'], 'assumptions': ['alpha lexer/parser literal handling and generator constant materialisation are not under contract'], 'trusted': []},
     'C11': {'units': ['U-VT', 'U-ALIGN'], 'assumptions': ['permutation invariance (Compiler sorting, feature-gated) and cycle detection (found_container*) are not under contract',
             'align_struct preconditions (struct or word with sized members; layout fits usize) are the typer\'s obligation, not verified'], 'trusted': []},
     'C08': {'units': ['U-MUT'], 'assumptions': ['the mutability tree walk (Analyzable impls of mutability.rs) and the whole-program non-interference consequence are not under contract'], 'trusted': []},
@@ -48,7 +48,7 @@ LEVELS = {
             'note': 'trusted: Verus+Z3, slicer/splicer, derived PartialEq/Clone are structural (assumed specs), identifier == is structural; Box::as_ref, Option::map_or std specs'},
     'C04': {'text': 'Proof (Verus, unbounded over all statement trees and all programs): every function of label_references.rs verified against an abstract label-stack semantics; Statement/Block/FunctionBody/Declaration/analyze results equal the oracle (goto resolves iff a label of that name is visible, else E400 variant; label accepted iff name not visible, else E420 variant), stack balanced per block and empty between functions; theorem_visibility proves visible <=> label later in same block or in an enclosing block.',
             'note': 'trusted: Verus+Z3, slicer/splicer, rules R1/R2/R14 (iterator chains to loops, iter().find to verified slice_find), derived Clone is identity, [T]::reverse spec, vstd Vec/String specs; opaque: Location, Expression, Comparison, ...; assumes < 2^32 labels; rejection surfacing (resolver) not under contract'},
-    'C06': {'text': 'Proof (Verus, unbounded over all statement trees) that syntax.rs replaces exactly the statements violating the placement rules by the E840/E800/E801 error variants (relational oracle ok/okb/okf over the three context flags, incl. flag protocol inv/mono) for Statement, Block, FunctionBody, Declaration and analyze. PARTIAL: the L1800 lint sentence (linter.rs) is not yet under contract.',
+    'C06': {'text': 'Proof (Verus, unbounded over all statement trees) that syntax.rs replaces exactly the statements violating the placement rules by the E840/E800/E801 error variants (relational oracle ok/okb/okf over the three context flags, incl. flag protocol inv/mono) for Statement, Block, FunctionBody, Declaration and analyze. L1800: every Lintable impl of linter.rs verified: the LoopAsFirstStatement lints appended == exactly the oracle (branch block whose first statement is loop), in traversal order, with payload; expressions raise no L1800.',
             'note': 'trusted: Verus+Z3, slicer/splicer, rules R1/R3, derived Default/Clone specs, [T]::reverse spec; opaque expression/location types; surfacing of Poison as diagnostics (resolver) not under contract'},
     'C12': {'text': 'PARTIAL (small): proof that extract_public/export of expander.rs expose exactly the pub declarations, functions as signatures, Public cleared, all other fields equal; imports/poison/private give None. expand(), module composition and split-equivalence are NOT under contract.',
             'note': 'trusted: Verus+Z3, slicer/splicer, rule R3, enumset model (remove/clone) over a Set view, Result::clone spec, opaque AST field types with identity Clone'},
